@@ -53,6 +53,22 @@ func proveLE(facts []Fact, v, bound ssa.Value, seen map[ssa.Value]bool, depth in
 	}
 	seen[v] = true
 	defer delete(seen, v)
+	// min(a, b, ...) is below whatever one of its operands is below; max(...) only what all of them are below
+	if cl, ok := v.(*ssa.Call); ok {
+		if b, isB := cl.Common().Value.(*ssa.Builtin); isB && (b.Name() == "min" || b.Name() == "max") {
+			all, any := true, false
+			for _, a := range cl.Common().Args {
+				if proveLE(facts, Unwrap(a), bound, seen, depth+1) {
+					any = true
+				} else {
+					all = false
+				}
+			}
+			if (b.Name() == "min" && any) || (b.Name() == "max" && all && len(cl.Common().Args) > 0) {
+				return true
+			}
+		}
+	}
 	for _, f := range facts {
 		var w ssa.Value
 		switch {
@@ -79,6 +95,21 @@ func proveGE(facts []Fact, v ssa.Value, seen map[ssa.Value]bool, depth int) bool
 	}
 	seen[v] = true
 	defer delete(seen, v)
+	if cl, ok := v.(*ssa.Call); ok {
+		if b, isB := cl.Common().Value.(*ssa.Builtin); isB && (b.Name() == "min" || b.Name() == "max") {
+			all, any := true, false
+			for _, a := range cl.Common().Args {
+				if proveGE(facts, Unwrap(a), seen, depth+1) {
+					any = true
+				} else {
+					all = false
+				}
+			}
+			if (b.Name() == "max" && any) || (b.Name() == "min" && all && len(cl.Common().Args) > 0) {
+				return true
+			}
+		}
+	}
 	for _, f := range facts {
 		var w ssa.Value
 		switch {
